@@ -30,6 +30,8 @@ func init() {
 }
 
 func runC11(c *an.Ctx, p *an.Prog, thorough bool) {
+	// C11.6 = C04.1's store-side links: an authenticate answer is Dir.Authenticate's answer of this very turn
+	authTurnRule(c, p, "C11.6")
 	d := dispatcherFn(p)
 	ns := p.Func("/cmd/whawty-auth", "NewStore")
 	if !need(c, "C11.1", d, "dispatcher goroutine") || !need(c, "C11.1", ns, "main.NewStore") {
@@ -423,6 +425,8 @@ func c113(c *an.Ctx, p *an.Prog, rule string) {
 // ---- C12 ----
 
 func runC12(c *an.Ctx, p *an.Prog, thorough bool) {
+	// C12.6 = C08.3/C15.4: an upgrade rewrites only the first line; the rest of the record is copied verbatim
+	c083under(c, p, newFsx(p), "C12.6")
 	// C12.1
 	if fn := p.Method("/store", "UserHash", "Authenticate"); need(c, "C12.1", fn, "store.(*UserHash).Authenticate") {
 		var bad []string
